@@ -62,7 +62,10 @@ def _quiet(f, *a, **k):
             return f(*a, **k)
 
 
-def _cmp(ctx, op, a, b, what, exact=False, **f):
+def _cmp(ctx, op, a, b, what, exact=False, sens=None, **f):
+    """sens: optional callable returning results of the *same* presentation as `a` re-run from a starting guess perturbed in the last
+    bits.  "Equal up to rounding" is decidable only for runs that are themselves stable under rounding: if the run's own rounding
+    sensitivity is of the size of the observed difference the case is tagged and not judged."""
     a, b = np.asarray(a, dtype=float), np.asarray(b, dtype=float)
     if a.shape != b.shape:
         ctx.check(False, op, "DIFFERS", f"{what}: shapes {a.shape} vs {b.shape}", **f)
@@ -72,6 +75,11 @@ def _cmp(ctx, op, a, b, what, exact=False, **f):
         return
     sc = max(float(np.max(np.abs(a))), 1e-300)
     d = float(np.max(np.abs(a - b))) / sc
+    if d > TOL and sens is not None:
+        ds = max(float(np.max(np.abs(a - np.asarray(p, dtype=float)))) / sc for p in sens())
+        if ds >= 0.05 * d:
+            ctx.tag("rounding-unstable-run(not judged)")
+            return
     ctx.check(d <= TOL, op, "DIFFERS", lambda: f"{what}: relative difference {d:.3e} > {TOL}", **f)
 
 
@@ -193,7 +201,17 @@ def run_case(case, ctx):
                 a = _quiet(ttb.cp_apr, Tc, R, init=M0.copy(), printitn=0, **kw)
                 Sc = gen.mk_sptensor(ttb, Xc, gen.stored_order(rng, int(np.count_nonzero(Xc)), "shuffled"))
                 b = _quiet(ttb.cp_apr, Sc, R, init=M0.copy(), printitn=0, **kw)
-                _cmp(ctx, op, denote(a[0]), denote(b[0]), "dense vs sparse data")
+
+                def sens():
+                    out = []
+                    for k in range(3):
+                        Mp = M0.copy()
+                        prng = np.random.default_rng(case["cseed"] + 7919 * (k + 1))
+                        for i_, fm in enumerate(Mp.factor_matrices):
+                            Mp.factor_matrices[i_] = fm * (1.0 + 2.0 ** -50 * prng.integers(-2, 3, size=fm.shape))
+                        out.append(denote(_quiet(ttb.cp_apr, Tc, R, init=Mp, printitn=0, **kw)[0]))
+                    return out
+                _cmp(ctx, op, denote(a[0]), denote(b[0]), "dense vs sparse data", sens=sens)
             elif rel == "print":
                 a = _quiet(ttb.cp_apr, Tc, R, init=M0.copy(), printitn=0, **kw)
                 for pr in (1, 2, 7):
